@@ -669,6 +669,11 @@ func (f *Func) ReachableAfterFailure(fail []*cfgx.Edge) map[*cfgx.Node]*cfgx.Vis
 // Used for "no error-capable return after X": a helper's results copied into
 // named results and returned once at the end keep their per-path meaning.
 func (f *Func) ReturnKindsFrom(start []*cfgx.Visit) map[*cfgx.Node]uint {
+	return f.ReturnKindsFromAvoiding(start, nil)
+}
+
+// ReturnKindsFromAvoiding is ReturnKindsFrom over the paths that do not pass a node accepted by stop.
+func (f *Func) ReturnKindsFromAvoiding(start []*cfgx.Visit, stop func(*cfgx.Node) bool) map[*cfgx.Node]uint {
 	idx := map[types.Object]uint{}
 	number := func(o types.Object) (uint, bool) {
 		if o == nil || !IsErrorType(o.Type()) {
@@ -691,10 +696,46 @@ func (f *Func) ReturnKindsFrom(start []*cfgx.Visit) map[*cfgx.Node]uint {
 	errIdx, named := f.errResult()
 	out := map[*cfgx.Node]uint{}
 	g := f.Graph()
-	g.Explore(start, cfgx.Walker{
+	onEdge := func(e *cfgx.Edge, st cfgx.State) (cfgx.State, bool) {
+		if e.Cond == nil || (e.Kind != cfgx.True && e.Kind != cfgx.False) {
+			return st, true
+		}
+		x, nonNilOnTrue, ok := f.NilTest(e.Cond)
+		if !ok {
+			return st, true
+		}
+		i, ok := number(f.ObjOf(x))
+		if !ok {
+			return st, true
+		}
+		want := cfgx.State(1)
+		if nonNilOnTrue == (e.Kind == cfgx.True) {
+			want = 2
+		}
+		if cur := get(st, i); cur != 0 && cur != want {
+			return st, false
+		}
+		return set(st, i, want), true
+	}
+	// a start placed after an edge knows what the edge's condition established
+	var begin []*cfgx.Visit
+	for _, v := range start {
+		if v.Via != nil {
+			st, feasible := onEdge(v.Via, v.State)
+			if !feasible {
+				continue
+			}
+			v = &cfgx.Visit{Node: v.Node, State: st, Prev: v.Prev, Via: v.Via}
+		}
+		begin = append(begin, v)
+	}
+	g.Explore(begin, cfgx.Walker{
 		AtNode: func(n *cfgx.Node, st cfgx.State) (cfgx.State, bool) {
 			if n.AST == nil {
 				return st, true
+			}
+			if stop != nil && stop(n) {
+				return st, false
 			}
 			if rs, isRet := n.AST.(*ast.ReturnStmt); isRet {
 				kind := f.ClassifyReturn(n)
@@ -742,27 +783,7 @@ func (f *Func) ReturnKindsFrom(start []*cfgx.Visit) map[*cfgx.Node]uint {
 			}
 			return st, true
 		},
-		OnEdge: func(e *cfgx.Edge, st cfgx.State) (cfgx.State, bool) {
-			if e.Cond == nil || (e.Kind != cfgx.True && e.Kind != cfgx.False) {
-				return st, true
-			}
-			x, nonNilOnTrue, ok := f.NilTest(e.Cond)
-			if !ok {
-				return st, true
-			}
-			i, ok := number(f.ObjOf(x))
-			if !ok {
-				return st, true
-			}
-			want := cfgx.State(1)
-			if nonNilOnTrue == (e.Kind == cfgx.True) {
-				want = 2
-			}
-			if cur := get(st, i); cur != 0 && cur != want {
-				return st, false
-			}
-			return set(st, i, want), true
-		},
+		OnEdge: onEdge,
 	})
 	return out
 }
